@@ -1,3 +1,139 @@
 """Per-property extras: additional checks beyond the generic correspondence, and evidence notes."""
+import os, re, random, subprocess, time
+import common
+from common import *
+import gen as G
+
 EXTRA = {}
 NOTES = {}
+
+
+# ---------------------------------------------------------------------------------------------
+# C15: the oracle is the round trip on the implementation side
+
+def extra_C15(res, tier, seed, cov):
+    rng = random.Random(seed * 1000003 + 15)
+    lines = G.gen_C15(rng, tier)
+    go = run_go(lines)
+    rng2 = random.Random(seed * 7 + 1)
+    phase2, meta = [], []
+    for l, g in zip(lines, go):
+        if g.startswith(("PANIC", "TIMEOUT", "CRASH")):
+            continue
+        head = l.partition(" | ")[0]
+        hdr = head.split()
+        desc = hdr[1]
+        uvar = bytes.fromhex(hdr[2].split(":")[1]).decode()
+        bparts = hdr[3].split(":")
+        bnames = (bytes.fromhex(bparts[2]).decode(), bytes.fromhex(bparts[3]).decode())
+        body, _, snap = g.rpartition(" ## ")
+        regs = dict(kv.split("=", 1) for kv in snap.split() if "=" in kv)
+        segs = body.split(" | ")
+        ops = l.partition(" | ")[2].split(" | ")
+        h = G.H(rng2, desc, uspec=hdr[2], bspec=hdr[3])
+        printed = {"e": [], "p": [], "q": []}
+        for op, seg in zip(ops, segs):
+            t = op.split()
+            if t[0] in ("show", "obs") and " s=" in seg:
+                s = seg.split(" s=", 1)[1]
+                reg = t[1]
+                val = regs.get(reg, "")
+                if "#" not in val:
+                    continue
+                enc = val.split("#", 1)[1]
+                printed[reg[0]].append((enc, s))
+        # build the re-parse history
+        k = 0
+        for enc, s in printed["e"]:
+            a = h.newe(); h.ops.append("%s=enc@0 %s" % (a, enc))
+            b = h.newe(); h.ops.append("%s=str@0 %s" % (b, hexs(s)))
+            h.ops.append("eq %s %s" % (a, b))
+        for kind, ctor, names in (("p", "coefs", [uvar]), ("q", "map", list(bnames))):
+            new = h.newu if kind == "p" else h.newb
+            items = printed[kind]
+            regs2 = []
+            for enc, s in items:
+                a = new(); h.ops.append("%s=%s@0 %s" % (a, ctor, enc or "-"))
+                b = new(); h.ops.append("%s=str@0 %s" % (b, hexs(s)))
+                h.ops.append("eq %s %s" % (a, b))
+                d = G.decorate(rng2, s, names)
+                c = new(); h.ops.append("%s=str@0 %s" % (c, hexs(d)))
+                h.ops.append("eq %s %s" % (a, c))
+                regs2.append((a, s))
+            if len(regs2) >= 2:
+                (a1, s1), (a2, s2) = regs2[0], regs2[1]
+                c = new(); h.ops.append("%s=str@0 %s" % (c, hexs(s1 + " + " + s2)))
+                d = new(); h.ops.append("%s=plus %s %s" % (d, a1, a2))
+                h.ops.append("eq %s %s" % (c, d))
+        if h.ops:
+            phase2.append(h.line())
+    go2, mo2 = run_both(phase2)
+    bad_rt, dis = 0, 0
+    for l, g, m in zip(phase2, go2, mo2):
+        ops = l.partition(" | ")[2].split(" | ")
+        segs = g.rpartition(" ## ")[0].split(" | ")
+        failed = [i for i, (o, sg) in enumerate(zip(ops, segs)) if o.startswith("eq ") and sg != "eq true"]
+        perr = [i for i, (o, sg) in enumerate(zip(ops, segs)) if "=str@" in o and not sg.startswith("ok")]
+        if failed or perr or g.startswith(("PANIC", "TIMEOUT", "CRASH")):
+            bad_rt += 1
+            if bad_rt <= 3:
+                i = (failed + perr + [0])[0]
+                res.violation("property: C15\nkind: round trip fails on the implementation (parse(print x) is not Equal to x)\ncase: %s\nimplementation: %s\nfailing op #%d: %s -> %s\n" % (
+                    l, g, i, ops[i] if i < len(ops) else "?", segs[i] if i < len(segs) else "?"))
+        elif g != m:
+            dis += 1
+            if dis <= 3:
+                res.violation("property: C15\nkind: correspondence (model vs implementation) disagreement in the re-parse phase\ncase: %s\nimplementation: %s\nmodel: %s\n" % (l, g, m))
+    cov["roundtrip_histories"] = len(phase2)
+    cov["roundtrip_checks"] = sum(l.count("| eq ") for l in phase2)
+    cov["roundtrip_failures"] = bad_rt
+    cov["roundtrip_model_disagreements"] = dis
+    cov["evaluations"] = cov.get("evaluations", 0) + len(phase2)
+    if phase2:
+        cov.setdefault("samples", []).append({"roundtrip_case": phase2[0][:500], "implementation": go2[0][:300]})
+
+
+EXTRA["C15"] = extra_C15
+
+
+# ---------------------------------------------------------------------------------------------
+# C20: supporting validation under the race detector (testing, labelled as such)
+
+def extra_C20(res, tier, seed, cov):
+    t0 = time.time()
+    try:
+        race_bin = build_harness(race=True)
+    except Exception as e:
+        res.violation("property: C20\nkind: race-enabled harness does not build\n%s\n" % e, "no-failing-input-found")
+        return
+    rounds = 12 if tier == "thorough" else 3
+    total_g = 0
+    for r in range(rounds):
+        env = dict(os.environ, VERIF_SEED=str(seed * 100 + r), GORACE="halt_on_error=0 log_path=" + os.path.join(BUILD, "race_%d" % r))
+        p = subprocess.run([race_bin, "-concurrent", "-goroutines", "16", "-iters", "60" if tier == "thorough" else "25"],
+                           stdout=subprocess.PIPE, stderr=subprocess.PIPE, text=True, env=env, timeout=1200)
+        out = p.stdout.strip().splitlines()
+        total_g += 16
+        racelogs = [f for f in os.listdir(BUILD) if f.startswith("race_%d" % r)]
+        mism = [l for l in out if l.startswith("MISMATCH") or l.startswith("PANIC")]
+        if racelogs or mism or p.returncode != 0:
+            txt = "property: C20\nkind: concurrent run under the race detector (16 goroutines over shared fields/rings/ideals)\nseed: %s\nreturncode: %d\n" % (env["VERIF_SEED"], p.returncode)
+            for f in racelogs[:2]:
+                txt += "race report (%s):\n%s\n" % (f, open(os.path.join(BUILD, f)).read()[:4000])
+            txt += "\n".join(mism[:10]) + "\n" + p.stderr[-2000:]
+            res.violation(txt)
+            for f in racelogs:
+                os.remove(os.path.join(BUILD, f))
+            break
+        cov.setdefault("race_runs", []).append(out[-1] if out else "")
+    cov["race_goroutine_runs"] = total_g
+    cov["race_wall_s"] = round(time.time() - t0, 1)
+    cov["evaluations"] = cov.get("evaluations", 0) + total_g
+    cov["distinct_nontrivial"] = max(cov.get("distinct_nontrivial", 0), total_g)
+
+
+EXTRA["C20"] = extra_C20
+
+NOTES["C20"] = ["the Lean theorems are about the regenerated syntactic effect table (which struct fields are assigned where) and an abstract footprint semantics; absence of data races in the compiled program additionally rests on the soundness of that extraction and on the race detector's sampling of schedules (supporting test, not a proof)"]
+NOTES["C15"] = ["parsers are modelled by a regex engine over the regenerated pattern fragments; the round-trip oracle is evaluated on the implementation; theorems cover the classes named in Props/C15.lean"]
+NOTES["C13"] = ["the counting clause (normal-form monomials = common zeros) is checked by the correspondence run only and is labelled a test"]
